@@ -277,6 +277,100 @@ theorem reads_history_free {d : Dom ℝ} (hd : C07.DInv d) {n : ℕ} {A A' B B' 
     rw [hc] at e
     exact Eqv.trans e e'.symm
 
+/-! ## the returned values are history independent, function by function
+
+Two objects that describe the same solved state (same domain, densities, … and the same canonical arrays) return the same
+values, whatever calls and transforms either of them went through (`history_preserves_canon` supplies the premise). -/
+
+theorem pair_correlation_history_free {p p' q q' : Prism ℝ} {g g' : MA ℝ} (hd : C07.DInv p.dom) (hdom : p'.dom = p.dom)
+    (gd : GoodArr p.dom p.n p.totalCorr) (gd' : GoodArr p.dom p.n p'.totalCorr)
+    (hc : canonF p.dom p.totalCorr = canonF p.dom p'.totalCorr)
+    (h : p.pairCorrelation = .ok (q, g)) (h' : p'.pairCorrelation = .ok (q', g')) : Eqv g g' := by
+  obtain ⟨hR, h1, _, a1, a2, a3, a4⟩ := C05.pair_correlation_def h
+  obtain ⟨hR', h1', _, b1, b2, b3, b4⟩ := C05.pair_correlation_def h'
+  rw [hdom] at h1'
+  have e := (reads_history_free hd gd gd' hc (B := hR) (B' := hR')).2 h1 h1'
+  refine ⟨by rw [a1, b1]; exact e.1, by rw [a2, b2]; exact e.2.1, by rw [a3, b3]; exact e.2.2.1, ?_⟩
+  intro l i j hl hi hj
+  rw [a1] at hl; rw [a2] at hi hj
+  rw [a4 l i j hl hi hj, b4 l i j (e.1 ▸ hl) (e.2.1 ▸ hi) (e.2.1 ▸ hj), e.2.2.2 l i j hl hi hj]
+
+theorem pmf_history_free {p p' q q' : Prism ℝ} {w w' : MA ℝ} (hd : C07.DInv p.dom) (hdom : p'.dom = p.dom) (hkT : p'.kT = p.kT)
+    (gd : GoodArr p.dom p.n p.totalCorr) (gd' : GoodArr p.dom p.n p'.totalCorr)
+    (hc : canonF p.dom p.totalCorr = canonF p.dom p'.totalCorr)
+    (h : p.pmf = .ok (q, w)) (h' : p'.pmf = .ok (q', w')) : Eqv w w' := by
+  obtain ⟨g, h1, a1, a2, a3, a4⟩ := C05.pmf_def h
+  obtain ⟨g', h1', b1, b2, b3, b4⟩ := C05.pmf_def h'
+  have e := pair_correlation_history_free hd hdom gd gd' hc h1 h1'
+  refine ⟨by rw [a2, b2]; exact e.1, by rw [a3, b3]; exact e.2.1, by rw [a1, b1], ?_⟩
+  intro l i j hl hi hj
+  rw [a2] at hl; rw [a3] at hi hj
+  rw [a4 l i j hl hi hj, b4 l i j (e.1 ▸ hl) (e.2.1 ▸ hi) (e.2.1 ▸ hj), e.2.2.2 l i j hl hi hj, hkT]
+
+theorem second_virial_history_free {p p' q q' : Prism ℝ} {ex : Bool} {n1 n2 : ℕ} {t t' : ℕ → ℕ → Option (Array ℝ)}
+    (hdom : p'.dom = p.dom) (hn : p'.n = p.n) (hL : 3 ≤ p.dom.length)
+    (gd : GoodArr p.dom p.n p.totalCorr)
+    (hc : canonF p.dom p.totalCorr = canonF p.dom p'.totalCorr)
+    (h : p.secondVirial ex = .ok (q, .table n1 t)) (h' : p'.secondVirial ex = .ok (q', .table n2 t')) :
+    n1 = n2 ∧ ∀ i j, i < p.n → j < p.n → t i j = t' i j := by
+  obtain ⟨hF, h1, _, a1, a2⟩ := C05.second_virial_def h
+  obtain ⟨hF', h1', _, b1, b2⟩ := C05.second_virial_def h'
+  rw [hdom] at h1'
+  have e : hF = hF' := by rw [ensureFourier_eq_canon h1, ensureFourier_eq_canon h1', hc]
+  refine ⟨by rw [a1, b1, hn], ?_⟩
+  intro i j hi hj
+  rw [a2 i j hi hj, b2 i j (hn ▸ hi) (hn ▸ hj), e, hdom]
+
+theorem chi_history_free {p p' q q' : Prism ℝ} {ex : Bool} {n1 n2 : ℕ} {t t' : ℕ → ℕ → Option (Array ℝ)}
+    (hdom : p'.dom = p.dom) (hn : p'.n = p.n) (hρ : p'.rho = p.rho) (hdi : p'.diam = p.diam) (htot : p'.total = p.total)
+    (hc : canonF p.dom p.directCorr = canonF p.dom p'.directCorr)
+    (h : p.chi ex = .ok (q, .table n1 t)) (h' : p'.chi ex = .ok (q', .table n2 t')) :
+    n1 = n2 ∧ ∀ i j, i < p.n → j < p.n → i ≠ j → t i j = t' i j := by
+  obtain ⟨_, cF, h1, _, a1, a2⟩ := C05.chi_def h
+  obtain ⟨_, cF', h1', _, b1, b2⟩ := C05.chi_def h'
+  rw [hdom] at h1'
+  have e : cF = cF' := by rw [ensureFourier_eq_canon h1, ensureFourier_eq_canon h1', hc]
+  refine ⟨by rw [a1, b1, hn], ?_⟩
+  intro i j hi hj hij
+  rw [(a2 i j hi hj hij).1, (b2 i j (hn ▸ hi) (hn ▸ hj) hij).1, e, hdom]
+  have hchi : ∀ a b l, p'.chiAt cF' a b l = p.chiAt cF' a b l := by
+    intro a b l; unfold Prism.chiAt; rw [hρ, hdi, htot]
+  simp only [hchi]
+
+theorem spinodal_history_free {p p' q q' : Prism ℝ} {n1 n2 : ℕ} {t t' : ℕ → ℕ → Option (Array ℝ)}
+    (hdom : p'.dom = p.dom) (hn : p'.n = p.n) (hsite : p'.siteD = p.siteD)
+    (hc : canonF p.dom p.directCorr = canonF p.dom p'.directCorr) (ho : canonF p.dom p.omega = canonF p.dom p'.omega)
+    (h : p.spinodal = .ok (q, .table n1 t)) (h' : p'.spinodal = .ok (q', .table n2 t')) :
+    n1 = n2 ∧ ∀ i j, i < p.n → j < p.n → i ≠ j → t i j = t' i j := by
+  obtain ⟨_, cF, omF, h1, h2, _, a1, a2⟩ := C05.spinodal_def h
+  obtain ⟨_, cF', omF', h1', h2', _, b1, b2⟩ := C05.spinodal_def h'
+  rw [hdom] at h1' h2'
+  have e : cF = cF' := by rw [ensureFourier_eq_canon h1, ensureFourier_eq_canon h1', hc]
+  have e2 : omF = omF' := by rw [ensureFourier_eq_canon h2, ensureFourier_eq_canon h2', ho]
+  refine ⟨by rw [a1, b1, hn], ?_⟩
+  intro i j hi hj hij
+  rw [(a2 i j hi hj hij).1, (b2 i j (hn ▸ hi) (hn ▸ hj) hij).1, e, e2, hdom]
+  have hs : ∀ a b l, p'.spinodalAt cF' omF' a b l = p.spinodalAt cF' omF' a b l := by
+    intro a b l; unfold Prism.spinodalAt; rw [hsite]
+  simp only [hs]
+
+theorem structure_factor_history_free {p p' q q' : Prism ℝ} {nz : Bool} {s s' : MA ℝ}
+    (w : PWf p) (w' : PWf p') (hs1 : p.siteD.length = 1) (hdom : p'.dom = p.dom) (hpair : p'.pairD = p.pairD) (hsite : p'.siteD = p.siteD)
+    (hc : canonF p.dom p.totalCorr = canonF p.dom p'.totalCorr) (ho : canonF p.dom p.omega = canonF p.dom p'.omega)
+    (hlen : ∀ B, ensureFourier p.dom p.omega = .ok B → ∀ H, ensureFourier p.dom p.totalCorr = .ok H → H.length ≤ B.length)
+    (h : p.structureFactor nz = .ok (q, s)) (h' : p'.structureFactor nz = .ok (q', s')) : Eqv s s' := by
+  obtain ⟨hF, omF, h1, h2, _, a1, a2, a3, a4⟩ := C05.structure_factor_def w hs1 h
+  obtain ⟨hF', omF', h1', h2', _, b1, b2, b3, b4⟩ := C05.structure_factor_def w' (by rw [hsite]; exact hs1) h'
+  rw [hdom] at h1' h2'
+  have e : hF = hF' := by rw [ensureFourier_eq_canon h1, ensureFourier_eq_canon h1', hc]
+  have e2 : omF = omF' := by rw [ensureFourier_eq_canon h2, ensureFourier_eq_canon h2', ho]
+  subst e; subst e2
+  refine ⟨by rw [a1, b1], by rw [a2, b2], by rw [a3, b3], ?_⟩
+  intro l i j hl hi hj
+  rw [a1] at hl; rw [a2] at hi hj
+  have hlo : l < omF.length := lt_of_lt_of_le hl (hlen omF h2 hF h1)
+  rw [a4 l i j hl hi hj hlo, b4 l i j hl hi hj hlo, hpair, hsite]
+
 /-! ## re-solving from the own solution -/
 
 /-- `cost` reads only the static part of the object: two objects that agree on it give the same evaluation -/
